@@ -161,7 +161,7 @@ class E2Check:
             print(f"CHECKER-ERROR property={self.prop} {e!r}")
             traceback.print_exc()
             return 3
-        obligations = discharged = 0
+        obligations = discharged = skipped = 0
         by_backend = {}
         solver_s = 0.0
         classes = programs = 0
@@ -197,6 +197,8 @@ class E2Check:
                     by_backend[backend] = by_backend.get(backend, 0) + 1
                     if len(samples) < 12 and obligations % 997 in (1, 400):
                         samples.append({"obligation": name, "why": info.get("why"), "status": status, "backend": backend})
+                elif status == "skipped":
+                    skipped += 1
                 else:
                     top = fn.split(".")[0]
                     ident = out["idents"].get(top, "realistic:" + top)
@@ -210,6 +212,8 @@ class E2Check:
             print(f"CHECKER-ERROR property={self.prop} vacuity: zero obligations")
             return 3
         # ---- triage
+        t_triage = time.time()
+        self.phase = {"pipeline_s": round(pipe["wall_s"], 1)}
         violations = []
         undecided = []
         seen = set()
@@ -220,6 +224,13 @@ class E2Check:
             if key in seen:
                 continue
             seen.add(key)
+            if len([v for v in violations if v["native"] and not v["native"].get("read_to_end_arrays_without_progress")]) >= 8 \
+                    and status == "sat":
+                # enough violations with a failing input on the real code are already in hand
+                violations.append({"spec": ident, "body": body, "class": cls_name, "obligation": name, "status": status,
+                                   "why": info.get("why"), "counter_model": model, "native": None, "batch": None,
+                                   "not_replayed": True})
+                continue
             nat = self.native_replay(ident, body, cls_name if tree else None, tree)
             batch = None
             if nat is None and payload is not None:
@@ -240,6 +251,8 @@ class E2Check:
                 violations.append(rec)
             else:
                 undecided.append(rec)
+        self.phase["triage_s"] = round(time.time() - t_triage, 1)
+        t_standin = time.time()
         # functions outside the VC generator's fragment: bounded stand-in (never counted as proved)
         standins = []
         seen_u = set()
@@ -262,6 +275,7 @@ class E2Check:
                                        "obligation": f"{cname}.{fn}:runtime-contract(bounded)", "status": "native",
                                        "why": "bounded stand-in for a function outside the fragment found a failure",
                                        "counter_model": None, "native": nat})
+        self.phase["standins_s"] = round(time.time() - t_standin, 1)
         # valid specs the generator refuses (C02's boolean clause / C18) are violations of C02
         if self.prop == "C02":
             for idents, err in generr:
@@ -312,6 +326,7 @@ class E2Check:
         cov = {
             "obligations": obligations,
             "discharged": discharged,
+            "not_solved_after_eight_refutations_in_their_batch": skipped,
             "checker_cmd": f"python3-vt -m checks {self.prop} --tier {self.tier}",
             "trusted_base": E2_TRUSTED,
             "by_backend": by_backend,
@@ -346,7 +361,7 @@ class E2Check:
             print(line)
         print(f"{self.prop}: {programs} programs, {classes} classes, {obligations} obligations, {discharged} discharged, "
               f"{len(violations)} violated, {len(undecided)} undecided, {len(unsupported)} functions outside the fragment, "
-              f"{round(time.time() - self.t0, 1)} s")
+              f"{round(time.time() - self.t0, 1)} s {self.phase}")
         if violations:
             os.makedirs(os.path.join(VERIF, "replays"), exist_ok=True)
             for n, v in enumerate(violations[:8]):
